@@ -258,6 +258,11 @@ def _numeric_vs_reference(pid, fam, t, st: Stats, want_flags, labels_filter):
                 st.inc("states")
                 if r.status != "ok":
                     st.inc("skipped_" + r.status)
+                    # the persistent route objects are still queried here (outcome not judged by this
+                    # property): a failing call is part of the history of the objects used at later points
+                    outs = routes.run(env)
+                    st.inc("transitions", len(outs))
+                    st.inc("unjudged_calls_at_undefined_points", len(outs))
                     continue
                 if not range_ok:
                     st.inc("skipped_range")
